@@ -533,7 +533,7 @@ class Exec:
             raise Violation('handle_leak', f"file descriptor(s) on {sorted(os.path.basename(x) for x in leaked)} still open "
                                            f"when {op['op']} returned control ({phase})")
         for rec in new:
-            if rec.text and norm_encoding(rec.encoding) != 'utf-8':
+            if rec.text and norm_encoding(rec.encoding) not in ('utf-8', 'utf-8-sig'):
                 raise Violation('not_utf8', f"path {os.path.basename(rec.path)} opened with encoding={rec.encoding!r}")
         if sink.obj is not None:
             if sink.obj.closed:
@@ -681,7 +681,12 @@ class Exec:
         if via == 'string':
             if not isinstance(ret, str):
                 raise Violation('string_not_returned', f"write_{fmt}() returned {type(ret).__name__}")
-            self._check_text(ret, [(op['val'], fmt)], 'returned string')
+            try:
+                self._check_text(ret, [(op['val'], fmt)], 'returned string')
+            except Violation as v:
+                if not self._pane_reads_back(sink, [(op['val'], fmt)], text=ret):
+                    raise
+                self.count('independent_parse_disagreed_pane_round_trip_ok')
             sink.state = 'intact'
             sink.docs = [(op['val'], fmt, ret, opts)]
             return
@@ -689,8 +694,16 @@ class Exec:
             sink.docs = []   # pane opens paths with 'w': the previous content is replaced
         sink.docs.append((op['val'], fmt, text, opts))
         sink.state = 'intact'
-        content = self._sink_text(sink, op)
-        self._check_text(content, [(d[0], d[1]) for d in sink.docs], f"sink {sink.name}")
+        content = ''
+        try:
+            content = self._sink_text(sink, op)
+            self._check_text(content, [(d[0], d[1]) for d in sink.docs], f"sink {sink.name}")
+        except Violation as v:
+            # the independent reading (bytes decoded as UTF-8, parsed with json/yaml directly) is stricter than the
+            # property, which only promises that *pane's* matching reader gives the value back: ask it, fault-free
+            if not self._pane_reads_back(sink, [(d[0], d[1]) for d in sink.docs]):
+                raise
+            self.count('independent_parse_disagreed_pane_round_trip_ok')
         if err_fired:
             self.count('error_fired_but_write_intact')
         if any(f.kind in LEGAL_FAULTS for (f, _) in self.fs.fired):
@@ -699,6 +712,40 @@ class Exec:
             self.count('multi_doc_appended')
         if any(ord(c) > 127 for c in content) and not is_stream:
             self.count('non_ascii_through_path')
+
+    def _pane_reads_back(self, sink, docs, text=None):
+        """Does pane's own matching reader, with no fault armed, return the acknowledged value(s) from the sink?"""
+        pane = self.pane
+        self.fs.disarm()
+        fmt = docs[0][1]
+        ents = [self.values[vi] for (vi, _) in docs]
+        if len({e['tkey'] for e in ents}) != 1:
+            return False
+        ent = ents[0]
+        kw = {'custom': ent['H']} if ent['H'] is not None else {}
+        try:
+            if text is not None:
+                src = io.StringIO(text)
+            elif sink.obj is not None:
+                src = sink.obj
+                if not isinstance(src, (io.StringIO, ChunkyText)):
+                    src.flush()
+                src.seek(0)
+            else:
+                src = self.path_arg(sink.name, 'str')
+            try:
+                if len(docs) > 1 or (fmt == 'yaml' and sink.obj is not None and len(docs) >= 1 and text is None):
+                    got = pane.io.from_yaml_all(src, ent['T'], **kw) if fmt == 'yaml' else None
+                    ok = isinstance(got, list) and len(got) == len(docs) and all(_eq(g, e['x']) for (g, e) in zip(got, ents))
+                else:
+                    got = (pane.io.from_json if fmt == 'json' else pane.io.from_yaml)(src, ent['T'], **kw)
+                    ok = _eq(got, ent['x'])
+            finally:
+                if sink.obj is not None and text is None:
+                    sink.obj.seek(0, 2)
+            return bool(ok)
+        except Exception:
+            return False
 
     def _path_exists(self, sink):
         return os.path.exists(self.path_arg(sink.name, 'str'))
